@@ -206,6 +206,8 @@ func executeFaults(k *FaultCase, r *FaultRun) (obs []FlushObs, crash string) {
 		if i > 0 && r.Restart[i-1] {
 			fo.Restarted = true
 			st = openState(path)
+			post := canonical(st.VerifAggregation())
+			fo.PostRestart = &post
 			rt.inner = buildTree(p)
 		}
 		before := st.VerifAggregation()
@@ -461,6 +463,7 @@ func faultMonitor(k *FaultCase, r *FaultRun, add func(sig, dem, obs string)) {
 		return
 	}
 	var live, durable []tracked
+	lastDisk := Final{} // the state file as the harness' own reader saw it after the previous flush
 	bounds := append(append([]int{}, r.Cuts...), len(k.Records))
 	prev := 0
 	for i, fo := range r.Flushes {
@@ -474,6 +477,10 @@ func faultMonitor(k *FaultCase, r *FaultRun, add func(sig, dem, obs string)) {
 		if fo.Err == 2 || (fo.Err != 0 && fo.Fault == 0) {
 			add("lost-traffic:batch-rejected", "every flush is processed", "Run returned: "+fo.ErrText+" ("+ctx+")")
 			return
+		}
+		if fo.Restarted && fo.PostRestart != nil {
+			// reading back: what the file held is in memory, key by key (collisions.go)
+			restartConservation(lastDisk, *fo.PostRestart, "state file vs the memory read back from it", ctx, add)
 		}
 		if fo.Restarted {
 			live = nil
@@ -492,6 +499,11 @@ func faultMonitor(k *FaultCase, r *FaultRun, add func(sig, dem, obs string)) {
 		}
 		accounts(k, fo.Mem, live, "memory", ctx, false, add)
 		accounts(k, fo.Disk, durable, "state-file", ctx, true, add)
+		if len(batch) > 0 && fo.Fault == 0 && fo.Err == 0 {
+			// writing: every entry of the memory is in the file under its own key
+			restartConservation(fo.Mem, fo.Disk, "memory vs the state file just written", ctx, add)
+		}
+		lastDisk = fo.Disk
 	}
 }
 
@@ -524,6 +536,11 @@ func genFaultCase(o *c.Out, i int) FaultCase {
 		maxLen = 5
 	}
 	k := genCase(r, maxLen)
+	if i%4 == 3 {
+		// both spellings of a key that collides under a plausible normalisation (collisions.go)
+		k, _ = genCollisionCase(r, maxLen)
+		o.Count("fault-stream:colliding-spellings")
+	}
 	// the production split threshold (main.go, urlTreeMaxSplitThreshold = 50): no
 	// convergence with these stream lengths, every endpoint key is exact; a
 	// third of the streams keep a small threshold (convergence mid-stream)
